@@ -199,6 +199,10 @@ def run(tier, seed, replay):
         lines.append("C01.matmul_dia " + json.dumps({"a": dia_json(DL), "b": dia_json(DR), "scale": [int(sc.real), int(sc.imag)]}))
         prod = _data.matmul_dia(DL, DR, sc)
         expect.append(("abs_offsets", prod.to_array(), sorted(int(o) for o in prod.as_scipy().offsets)))
+        for cj in (False, True):
+            lines.append("C01.transpose_dia " + json.dumps({"a": dia_json(DL), "conj": cj}))
+            tr_ = _data.adjoint_dia(DL) if cj else _data.transpose_dia(DL)
+            expect.append(("abs_offsets", tr_.to_array(), sorted(int(o) for o in tr_.as_scipy().offsets)))
     model = core.run_driver(lines)
     ndis, first = 0, None
     for line, ex, m in zip(lines, expect, model):
